@@ -1385,6 +1385,9 @@ class RlRaggedConcatenate(Family):
         finally:
             SymNumpy.concatenate = real_cat
         ok = (isinstance(out, RunLengthRaggedArray) and type(out) is RunLengthRaggedArray and isinstance(out._indices, Cat) and isinstance(out._values, Cat))
+        if not (isinstance(out, RunLengthRaggedArray) and isinstance(out._indices, Cat) and isinstance(out._values, Cat)):
+            from ..sym.core import Unsupported
+            raise Unsupported("the concatenation is not built from two ragged row concatenations; the proof script knows only that shape")
         ctx.prove("post.result is a RunLengthRaggedArray of two row concatenations", z3.BoolVal(ok))
         if not ok:
             return
